@@ -17,7 +17,9 @@ What is replaced while tracing (this list is part of the trusted base; everythin
       np.linalg.det   3x3 determinant over the last two axes, expanded symbolically (hand specification of det:
                       a00 (a11 a22 - a12 a21) - a01 (a10 a22 - a12 a20) + a02 (a10 a21 - a11 a20))
       np.linalg.norm  returns the formal object  sum_k c_k |v_k|  (`Rad`; no square root is evaluated); supports
-                      `* number`, `/ number`, `+ Rad`
+                      `* number`, `/ number`, `+ Rad`.  An area  sum_k c_k |v_k|  is emitted as the vectors
+                      w_k = c_k * AreaNF.den * v_k  (area = sum |w_k| / den), each with a canonical sign and in a
+                      canonical order (the sum depends only on the multiset {+-w_k})
       np.zeros / np.empty with a float dtype (or none)  -> object array of `Sym` zeros (so that `res += ...` works)
     np.cross, np.dot, np.stack, np.sum, np.mean, ndarray.mean, indexing, reshape ... are numpy's own code
     acting on object arrays (their arithmetic is `Sym.__add__/__sub__/__mul__/__truediv__`).
@@ -319,10 +321,14 @@ def tracing(gp):
             if hasattr(f, 'py_func'):
                 saved_cls[name] = obj
                 setattr(cls, name, staticmethod(f.py_func) if isinstance(obj, staticmethod) else f.py_func)
+        for name, obj in list(vars(gp).items()):        # module-level njit functions
+            if hasattr(obj, 'py_func') and callable(obj):
+                saved[name] = obj
+                setattr(gp, name, obj.py_func)
         yield fp
     finally:
-        gp.np = saved['np']
-        gp.functions = saved['functions']
+        for name, obj in saved.items():
+            setattr(gp, name, obj)
         for name, obj in saved_cls.items():
             setattr(cls, name, obj)
         for obj in vars(cls).values():          # lru_cached methods must not keep symbolic results
@@ -331,10 +337,6 @@ def tracing(gp):
 
 
 # ----------------------------------------------------------------------------------------- the kernels
-
-def _modes(*ms):
-    return list(ms)
-
 
 ALL3 = ['linear', 'gaussian', 'centroid']
 # faces of the fixed polyhedra (node indices of the one element): a tetrahedron and a pyramid (quad + 4 triangles)
@@ -374,8 +376,10 @@ def kernel_table():
 
 
 def multiplier(api, ty, mode, n, faces):
-    """the model's fixed multiplier: [traced value] * multiplier = [model kernel]  (Model/Geom*.lean, GeomKernels.lean:
-    VolNF.den; for areas  (coefficient of the norm) * AreaNF.den;  normals: scale of the un-normalised vector)"""
+    """the model's fixed multiplier: [traced value] * multiplier = [model kernel]  (Model/Geom*.lean, GeomKernels.lean):
+    volumes: VolNF.den (polyhedron "centroid": 6 * lcm of the face sizes); normals: scale of the un-normalised vector.
+    Areas are scaled by (traced coefficient of the norm) * AreaNF.den instead (see `trace_all`); for the unchanged tree
+    that product is the value returned here."""
     if api == 'volume':
         if ty == 'polyhedron':
             if mode == 'centroid':      # 6 V times the lcm of the face sizes (polyC6 has 1/k per face)
@@ -467,11 +471,17 @@ def trace_one(api, ty, mode, n, faces):
 
 def trace_all():
     """returns (polys: name -> {'arity', 'comps': [[(monomial, num, den)]], 'labels'}, info)"""
-    import femio  # noqa: F401
-    from femio import geometry_processor as gp
     polys, untraceable, traced = {}, {}, []
     normalize_calls = 0
-    with tracing(gp) as fp:
+    try:
+        import femio  # noqa: F401
+        from femio import geometry_processor as gp
+        cm = tracing(gp)
+        fp = cm.__enter__()
+    except Exception as e:      # the module no longer has the shape the tracer expects: nothing can be traced
+        why = f'tracer could not be installed: {type(e).__name__}: {str(e)[:160]}'
+        return {}, {'traced': [], 'untraceable': {k[0]: why for k in kernel_table()}, 'normalize_calls': 0}
+    try:
         for name, api, ty, mode, n, faces in kernel_table():
             try:
                 with contextlib.redirect_stdout(io.StringIO()):
@@ -479,9 +489,12 @@ def trace_all():
                 mult = multiplier(api, ty, mode, n, faces)
                 den = area_den(ty, mode, n) if api == 'area' else 1
                 comps, labels = [], []
+                if api == 'area':
+                    terms = canonical_norm_terms([[p * (c * den) for p in vec] for c, vec in terms])
+                else:
+                    terms = [(c, [p * mult for p in vec]) for c, vec in terms]
                 for k, (c, vec) in enumerate(terms):
-                    for a, p in enumerate(vec):
-                        q = p * (c * den) if api == 'area' else p * mult
+                    for a, q in enumerate(vec):
                         comps.append(q)
                         labels.append(('' if len(terms) == 1 else f'V{k}') + ('' if len(vec) == 1 else AX[a].upper()))
                 bad = sorted({m for q in comps for m in q.t if any(v >= 3 * n for v in m)})
@@ -495,7 +508,25 @@ def trace_all():
                 where = next((f'{f.filename.split("/")[-1]}:{f.lineno}' for f in reversed(tb) if 'femio' in f.filename), '')
                 untraceable[name] = f'{type(e).__name__}: {str(e)[:160]} {where}'.strip()
         normalize_calls = fp.normalize_calls
+    finally:
+        cm.__exit__(None, None, None)
     return polys, {'traced': traced, 'untraceable': untraceable, 'normalize_calls': normalize_calls}
+
+
+def canonical_norm_terms(vecs):
+    """a sum of norms  sum_k |w_k|  depends only on the multiset {+-w_k}: each vector gets the sign that makes the leading
+    coefficient of its first non-zero component positive, the vectors are sorted (so `areas2 + areas1` or a cross product
+    taken in the other order traces to the same text); zero vectors are dropped"""
+    out = []
+    for vec in vecs:
+        lead = next((sorted(q.t.items())[0][1] for q in vec if q.t), None)
+        if lead is None:
+            continue
+        if lead < 0:
+            vec = [-q for q in vec]
+        out.append(vec)
+    out.sort(key=lambda vec: [sorted(q.t.items()) for q in vec])
+    return [(Fraction(1), vec) for vec in out]
 
 
 def area_den(ty, mode, n):
